@@ -25,7 +25,21 @@ ENGINES = {
 # property -> configuration
 #   engine, runs per worker (quick, thorough)
 PROPS = {
-    "C01": dict(engine="e1", quick=12000, thorough=250000, level="exploration"),
+    "C01": dict(engine="e1", quick=12000, thorough=250000, level="exploration",
+                text="Seeded search over generated acyclic programs (all non-cycle function kinds, tracked structs, interning with reclamation, untracked reads, no_eq, dynamic calls) and write/query histories; every returned value and field is compared with an independent from-scratch reference interpreter and, on a sample, with a fresh salsa database.",
+                note="Trusted: reference interpreter + shared op stepping. Bounds: <=18 nodes, <=70 steps, values mod <=8."),
+    "C02": dict(engine="e1", quick=10000, thorough=200000, level="exploration",
+                text="Seeded histories with durability churn (every write draws LOW/MEDIUM/HIGH/NEVER_CHANGE or keeps; synthetic writes of every durability); values = reference; writes to frozen fields and NEVER_CHANGE synthetic writes must panic and leave results unchanged.",
+                note="Trusted: reference interpreter. Durability shortcut reach is inferred from validation events, not instrumented."),
+    "C03": dict(engine="e1", quick=10000, thorough=200000, level="exploration",
+                text="Every body execution observed (WillExecute + body probe) is checked against a justification model fed by read probes: an execution of a key with a live, tracked memo must be explained by a write to a field it read, a callee whose value/durability changed, a recreated tracked field, a reclaimed interned value, eviction or untracked state. One-sided: unknown durability counts as justified.",
+                note="Model of durability is exact for input reads and calls, conservative (always justified) through interned values, LRU functions and multi-argument key interning."),
+    "C04": dict(engine="e1", quick=10000, thorough=200000, level="exploration",
+                text="Programs with untracked reads of harness-controlled cells; after each cell change + synthetic write of any durability: values = reference, every untracked function reachable from a request executed in that revision, and dependents of an untracked function that returned an equal value are not re-executed (justification model).",
+                note="Acyclic classes only are alarm-free; the cyclic class carries the known finding (untracked read by a cycle participant)."),
+    "C06": dict(engine="e1", quick=10000, thorough=200000, level="exploration",
+                text="Makers create 0..k tracked structs conditionally with colliding identity values; oracle over probes/events: same (creator, ident, occurrence) in consecutive executions keeps its id, ids of live structs are pairwise distinct across logical identities, dropped structs are discarded (DidDiscard) and disappear from entries(), functions keyed by a kept struct re-execute only when a tracked field they read changed.",
+                note="Identity hash is honest (hash_mod=0) in this class; bad-hash behaviour is out of scope."),
 }
 
 COMPONENTS = {
@@ -224,11 +238,46 @@ def rule_of(engine, prop):
     return p.stdout.strip()
 
 
+TECH = {"e1": "deterministic simulation: seeded single-handle history simulator, reference-model and event-log oracles",
+        "e1p": "deterministic simulation: seeded history simulator with snapshot/restore (crash-restart) steps, reference-model oracle",
+        "e3": "deterministic simulation: seeded baton scheduler over real threads behind salsa's sync seam, fault injection, reference-model oracle"}
+
+
+def write_manifest():
+    m = json.load(open(os.path.join(ROOT, "MANIFEST.json")))
+    checks = []
+    for pid in sorted(PROPS):
+        c = PROPS[pid]
+        checks.append({
+            "property_id": pid,
+            "quick_cmd": f"python3 vcheck.py {pid} --tier quick",
+            "thorough_cmd": f"python3 vcheck.py {pid} --tier thorough",
+            "evidence_file": f"evidence/{pid}.json",
+            "replay_cmd_template": "python3 vcheck.py --replay {path}",
+            "engine": c["engine"],
+            "level_claimed": {"category": c["level"], "text": c["text"], "design_ref": f"DESIGN.md §5 {pid}"},
+            "level_note": c["note"],
+            "technique": TECH[c["engine"]],
+        })
+    m["checks"] = checks
+    claimed = set(PROPS)
+    m["not_applicable"] = [x for x in m.get("not_applicable", []) if x["property_id"] not in claimed]
+    engines = {}
+    for pid, c in PROPS.items():
+        engines.setdefault(c["engine"], []).append(pid)
+    m["engines"] = [{"name": e, "path": ENGINES[e][0], "serves_properties": sorted(ps), "kind_free_text": TECH[e]} for e, ps in sorted(engines.items())]
+    json.dump(m, open(os.path.join(ROOT, "MANIFEST.json"), "w"), indent=1)
+    print("MANIFEST.json written:", len(checks), "checks")
+
+
 def main():
     a = sys.argv[1:]
     if not a:
         print(__doc__)
         sys.exit(2)
+    if a[0] == "--manifest":
+        write_manifest()
+        return
     if a[0] == "--setup":
         for e in sorted(set(c["engine"] for c in PROPS.values())):
             build(e)
